@@ -152,7 +152,10 @@ def composition(res, sc, thorough, rng, rb):
         if nemit == 0 or npub == 0 or nconsumed == 0:
             raise V.Infra("composition driver is dead: %d polls published, %d deliveries notified, %d epoch events consumed" % (nemit, npub, nconsumed))
         # binding self-test: drop one recorded block publication of the poller -> the monitor must object
-        k = next(i for i, e in enumerate(evs) if e["ev"] == "poll" and e["emitted"])
+        # (a publication right after an RPC error is allowed but not demanded: take one that follows a successful poll)
+        polls = [i for i, e in enumerate(evs) if e["ev"] == "poll"]
+        k = next(i for j, i in enumerate(polls) if evs[i]["emitted"] and j > 0 and evs[polls[j - 1]]["r"] >= 0
+                 and not any(evs[x]["ev"] == "cfg" for x in range(polls[j - 1], i)))
         start = max(i for i in range(k + 1) if evs[i]["ev"] == "cfg")
         end = next((i for i in range(k + 1, len(evs)) if evs[i]["ev"] == "cfg"), len(evs))
         mut = [dict(e) for e in evs[start:end]]
@@ -202,6 +205,15 @@ def body():
         behs = [dict(n=c[0], s=c[1], p=c[2], blocks=c[3:]) for c in cases]
         n_edge = len(behs)
         behs += random_behaviours(rng, 2000 if thorough else 200)
+        # every percentage with epoch lengths on which the threshold is a whole block (the float comparison sits on equality):
+        # every block of two epochs, and the threshold block followed by a jump into the next epoch
+        for P in range(100):
+            for N in ((10, 20, 25, 50, 100) if thorough else (rng.choice([10, 20]), rng.choice([25, 50, 100]))):
+                S = rng.choice([0, 1, 7])
+                behs.append(dict(n=N, s=S, p=P, blocks=list(range(S + 1, S + 2 * N + 1))))
+                if (P * N) % 100 == 0 and P * N // 100 < N - 1:
+                    thr = S + P * N // 100
+                    behs.append(dict(n=N, s=S, p=P, blocks=[b for b in (S + 1, thr, S + N + 1) if b > S][:3] if thr > S + 1 else [thr, S + N + 1] if thr > S else [S + N + 1]))
         rb = V.replay_behaviours()
         if rb is not None and rb and "steps" in rb[0]:
             comp = composition(res, sc, thorough, rng, rb)
